@@ -11,19 +11,20 @@ EXTENDS SpinLock, Json
 CONSTANTS POR
 VARIABLE last
 ASSUME JsonSerialize("catalog.json", <<[tx |-> TX, genesis |-> GenesisOuts, award |-> Award, keys |-> KeySeq, addrs |-> Addrs,
-                                        req |-> ReqDef, fam |-> Fam, lk |-> LK, kvnames |-> SetToSeq(KvNames)]>>)
+                                        req |-> ReqDef, fam |-> Fam, lk |-> LK, kvnames |-> SetToSeq(KvNames),
+                                        kvpool |-> KvPoolFull, tokpool |-> TokPoolFull]>>)
 gvars == <<vars, last>>
 Beh == [sc |-> sc, sched |-> hist,
         pred |-> [res |-> [p \in Procs |-> res[p].c], obs |-> ObsOfDb(db)]]
-DumpAll == ~AllDone \/ (TLCSet(7, TLCGet(7) + 1) /\ JsonSerialize("out/b_" \o ToString(TLCGet(7)) \o ".json", Beh) /\ FALSE)
-DumpSim == ~AllDone \/ (JsonSerialize("out/b_" \o ToString(TLCGet("stats").traces) \o ".json", Beh) /\ FALSE)
+DumpAll == ~AllDone \/ (TLCSet(7, TLCGet(7) + 1) /\ JsonSerialize("out/b_" \o ToString(TLCGet(7)) \o ".json", <<Beh>>) /\ FALSE)
+DumpSim == ~AllDone \/ (JsonSerialize("out/b_" \o ToString(TLCGet("stats").traces) \o ".json", <<Beh>>) /\ FALSE)
 Scanning == {p \in Procs : pc[p] \in {"sel_scan", "sel_unlock"}}
 GMovers == IF Granted # {} THEN Granted ELSE IF Scanning # {} THEN Scanning ELSE Procs
 NormalOK(p) == \/ ~POR \/ Granted # {} \/ Scanning # {} \/ last.p = 0
                \/ ~(p < last.p /\ ~Dependent(Foot(p), last.f))
 GenInit == Init /\ last = [p |-> 0, f |-> NoFoot] /\ TLCSet(7, 0)
 GenNext == \E p \in GMovers : /\ NormalOK(p) /\ Step(p)
-                              /\ hist' = Append(hist, <<p, pc'[p], KeyAt(p)'>>)
+                              /\ Log(p)
                               /\ last' = [p |-> p, f |-> Foot(p)]
 GenSpec == GenInit /\ [][GenNext]_gvars
 =============================================================================
